@@ -279,6 +279,40 @@ inline void Run(const Args& args, Result& res) {
                             sw.One((u16)op, 0x6420, di.need_expansion, c.bases[b].second, (int)b, {-1, 0}, {-1, 0}, di, pat);
                     }
                 }
+                // ---- clause 1b: the addressing configuration as a cluster: step x modulo x modes x register position, all at once
+                // (stepping rules depend on several of these fields together; one-field deviations cannot reach e.g. step = -64 with mod = 1)
+                if (!capped) {
+                    c.impl.api->fill_memory(c.impl.m, 0);
+                    c.ref.api->fill_memory(c.ref.m, 0);
+                    const u16 mods[] = {0, 1, 2, 3, 4, 5, 7, 8, 0x0F, 0x10, 0x1F, 0x3F, 0x40, 0x7F, 0x80, 0xFF, 0x100, 0x1FF};
+                    u32 job = 0;
+                    for (u16 mod : mods)
+                        for (u16 s7 = 0; s7 < 128; ++s7) {
+                            if ((job++ % cnt) != (u32)idx)
+                                continue;
+                            u16 mask = 0;
+                            while (mask < mod)
+                                mask = (u16)((mask << 1) | 1);
+                            for (int cfg = 0; cfg < 16; ++cfg)
+                                for (int unit : {0, 3, 5}) {
+                                    VState st = c.bases[0].second;
+                                    st.modi = st.modj = mod, st.stepi = st.stepj = s7;
+                                    st.stepi0 = st.stepj0 = (cfg & 1) ? 0xFFF9 : 0x0005;
+                                    st.cmd = (cfg >> 1) & 1, st.stp16 = (cfg >> 2) & 1;
+                                    st.m[unit] = (cfg >> 3) & 1, st.br[unit] = 0;
+                                    for (u16 r : {(u16)0x6400, (u16)(0x6400 | 1), (u16)(0x6400 | mod), (u16)((0x65FF & ~mask) | mod), (u16)((0x65FF & ~mask) | (mod ? mod - 1 : 0)),
+                                                  (u16)(0x6400 | ((mod + 1) & mask))}) {
+                                        st.r[unit] = r;
+                                        for (u16 op : {(u16)(0x0080 | unit | (3 << 3)), (u16)(0x0080 | unit | (1 << 3)), (u16)(0x0080 | unit | (2 << 3)), (u16)(0x4990 | unit),
+                                                       (u16)(0x5DA0 | unit), (u16)(0x1C00 | (7 << 5) | unit | (3 << 3))}) {
+                                            DecodeInfo di;
+                                            c.ref.api->decode(op, &di);
+                                            sw.One(op, 0, 0, st, 0, {-1, 0}, {-1, 0}, di, 0);
+                                        }
+                                    }
+                                }
+                        }
+                }
                 blk.counters[0] = done_ops;
                 blk.counters[1] = sw.ref_incomplete;
                 u64 clause1_evals = local.evaluations;
@@ -338,7 +372,7 @@ inline void Run(const Args& args, Result& res) {
                    "draws) produce vectors that are loaded as test_verifier does and run: no abort, pc = 1+NeedExpansion, data accesses only "
                    "inside the two compared windows; distinct = distinct non-trivial (opcode, result) pairs + distinct generated vectors",
                    ss.items.size(), th ? " on all bases" : " on base 0, bit/mode deviations on two more bases");
-    res.bound = Fmt("all 65536 opcodes; %zu states per opcode; generator: %zu default answers, 1-deviations%s", ss.items.size(), K.size(),
+    res.bound = Fmt("all 65536 opcodes; %zu states per opcode; addressing cluster: 18 modulo values x 128 steps x 16 mode combinations x 6 positions x 3 registers x 6 stepping instructions; generator: %zu default answers, 1-deviations%s", ss.items.size(), K.size(),
                     th ? ", 2-deviations over the last 24 draws" : "");
     res.assumptions = {"the frozen reference in /verif/ref (origin and sha256 in ref/ORIGIN, ref/SHA256SUMS) is the hardware-validated semantics",
                        "states outside the declared alphabet are not visited; prpage fixed at 0 (C18 covers the rest)",
